@@ -16,6 +16,7 @@ def K(prefix, name, clause, kind='P', tier='quick', fns=(), bound=None):
 PROPS = {}
 WINDOW_DRV = {'file': 'native/core_window.rs', 'attach': 'src/crypto/core.rs', 'test': 'replay_window_matches_the_property'}
 INIT_DRV = {'file': 'native/init_decoder.rs', 'attach': 'src/crypto/init.rs', 'test': 'handshake_decoder_is_total_and_accepts_only_signed_messages'}
+BASE62_DRV = {'file': 'native/base62_long.rs', 'attach': 'src/util.rs', 'test': 'text_codec_round_trips_long_strings'}
 TABLE_MODEL = {'file': 'native/table_model.rs', 'attach': 'src/table.rs', 'test': 'table_matches_reference_model'}
 
 PROPS['C03'] = {
@@ -325,7 +326,8 @@ PROPS['C18'] = {
     'level': 'proof',
     'level_text': 'Proof (Verus, unbounded lengths) that the text codec is value-exact: base62_add_mult_16, to_base62 and from_base62 verbatim against positional-value specs (text value == big-endian byte value, canonical forms, first bad character), and that Crypto::{decode_key, parse_public_key, parse_private_key, parse_keypair} accept the text of EVERY 32-byte string (also with leading zero bytes) and hand exactly those bytes to the key constructor; Crypto::{generate_keypair, keypair_from_password}: the printed pair is the text of a 32-byte seed and of its public key, and with a password the seed is PBKDF2 of the whole password in both functions (same password, same keys). ring key objects and PBKDF2 are uninterpreted functions.',
     'verus': [{'unit': 'base62', 'fns': ['(?!lemma_roundtrip_any_body).*']}],
-    'native_search': {r'base62::Crypto::(keypair_from_password|generate_keypair)': {'file': 'native/keys_password.rs', 'attach': 'src/crypto/common.rs', 'test': 'password_keys_are_deterministic_and_use_the_whole_password'},
+    'native_search': {r'base62::(to_base62|from_base62|base62_add_mult_16)': BASE62_DRV,
+                      r'base62::Crypto::(keypair_from_password|generate_keypair)': {'file': 'native/keys_password.rs', 'attach': 'src/crypto/common.rs', 'test': 'password_keys_are_deterministic_and_use_the_whole_password'},
                       r'base62::Crypto::.*': KEYS_DRV},
     'trusted': [
         'ring: Ed25519KeyPair::from_seed_unchecked / from_seed_and_public_key as uninterpreted functions of the seed (accept exactly 32-byte seeds; public key is a function of the seed)',
@@ -346,7 +348,8 @@ PROPS['C17'] = {
         'files': {'src/beacon.rs': ['kani/beaconblocks.rs.in']},
         'harnesses': [K('beacon::__verif_beaconblocks::', 'beacon_age_window_is_cyclic_distance', 'age test of peerlist_decode: rejected <=> cyclic distance of the 16-bit hour stamps > ttl, in either direction; all 2^48 triples', fns=['beacon::BeaconSerializer::peerlist_decode (block: age test)'])],
     },
-    'native_search': {'kani::beaconblocks::beacon_age_window_is_cyclic_distance': {'file': 'native/beacon_age.rs', 'attach': 'src/beacon.rs', 'test': 'beacon_age_window_is_cyclic'},
+    'native_search': {r'base62::(to_base62|from_base62|base62_add_mult_16)': BASE62_DRV,
+                      'kani::beaconblocks::beacon_age_window_is_cyclic_distance': {'file': 'native/beacon_age.rs', 'attach': 'src/beacon.rs', 'test': 'beacon_age_window_is_cyclic'},
                       'base62::lemma_roundtrip_any_body': {'file': 'native/beacon_roundtrip.rs', 'attach': 'src/beacon.rs', 'test': 'beacons_round_trip_for_every_hour'},
                       r'beacon::BeaconSerializer::get_keystream': {'file': 'native/beacon_password.rs', 'attach': 'src/beacon.rs', 'test': 'beacons_of_other_passwords_are_ignored'},
                       r'beacon::BeaconSerializer::mask_with_keystream': {'file': 'native/beacon_long_text.rs', 'attach': 'src/beacon.rs', 'test': 'long_beacon_bodies_do_not_panic'}},
